@@ -2,6 +2,7 @@
 
 1. B1 + model checking: the transition tables are extracted from the live class; TLC decides
    (a) MC_Language: unbounded language equivalence with the documented automaton (product automaton),
+   (a') MachineInd.tla (typed abstraction, Apalache): an INDUCTIVE invariant implying BackToInitial - pipelines and histories of every length,
    (b) MC_Machine: all pipelines <= MaxLen, histories <= 3 operations, scales <= 3: AcceptIffDocPath,
        RunsAsWritten, CheckVisitsAll, BackToInitial, SequencingErrorNamed.
 2. B3 trace validation: histories (check, run, check again, run again, ...) of real PandoraMachine objects,
@@ -17,7 +18,7 @@ import numpy as np
 
 from vp import build
 from vp.core import Check, MachineryFailure
-from vp.extract import write_tables
+from vp.extract import write_tables, write_typed_tables
 from vp.tracer import MachineTracer, project_machine
 
 
@@ -232,6 +233,21 @@ def run(tier):
     if not res.invariant_violations and ("NeverRan" not in v.invariant_violations or "NeverRejected" not in v2.invariant_violations):
         raise MachineryFailure("vacuity gate: a multi-scale run with validation / a sequencing rejection is not reachable in the model")
     chk.extra["model_coverage"] = res.coverage
+    # unbounded: Apalache discharges an INDUCTIVE invariant of the typed abstraction (any pipeline length, any history length)
+    from vp.core import run_apalache
+    typed = write_typed_tables(chk.work / "MachineIndTables.tla")
+    obligations = [("Init => IndInv", ["--init=Init", "--inv=IndInv", "--length=0"]),
+                   ("IndInv /\\ Next => IndInv'", ["--init=IndInv", "--inv=IndInv", "--length=1"]),
+                   ("IndInv => BackToInitial", ["--init=IndInv", "--inv=BackToInitial", "--length=0"])]
+    proved = 0
+    for name, args in obligations:
+        ok, out = run_apalache("MachineInd", chk.work / "apalache", args, include=[typed])
+        if ok:
+            proved += 1
+        else:
+            chk.violation("model:IndInv", {"model": "MachineInd", "invariant": name}, {"apalache": out[-3000:]},
+                          f"the extracted tables break the inductive invariant: {name}")
+    chk.extra["apalache_inductive_obligations"] = {"obligations": len(obligations), "discharged": proved}
 
     # ---- 2. trace validation of real machines -----------------------------------------------------------------
     L, R = _images()
